@@ -228,6 +228,18 @@ static void check_store_prefix (Verdict &v, const J &plan, const Result &r, cons
 	if (cls == "RW" && !rw_seek) return ;
 	if (cls == "RW" && !(f.sample_granular () && !f.lossy)) return ;
 	std::string where = fopk == "write" ? "@audio_write" : fopk == "cmd" ? "@header_update" : fopk == "close" ? "@close" : "@" + fopk ;
+	// frames that had reached the I/O layer when the fault fired, counted from the size of the store at that instant (append-only
+	// writers, encodings with a fixed number of bytes per block): for these the value to survive is known even when the snapshot
+	// cannot be decoded, e.g. at the first header update of a file whose stored header still says "no frames"
+	int64_t handed_items = 0 ;
+	if (cls == "W")
+	{	const std::string path = "/sim/cwd/f0.dat" ;
+		auto fs = r.fault_snapshot.find (path) ; auto od = base.dataoffsets.find ("f0.dat") ;
+		int64_t blockbytes = f.major == SF_FORMAT_SDS ? 127 : (f.sample_granular () && !f.lossy) ? (int64_t) ch * (f.is_double ? 8 : f.is_float ? 4 : f.bits / 8) : 0 ;
+		bool seeks = false ; for (auto &o : ops.a) if (o.gets ("op") == "seek") seeks = true ;
+		if (fs != r.fault_snapshot.end () && od != base.dataoffsets.end () && od->second > 0 && blockbytes > 0 && !seeks && (int64_t) fs->second.size () > od->second)
+			handed_items = std::min<int64_t> (frames, (((int64_t) fs->second.size () - od->second) / blockbytes) * B) * ch ;
+	}
 	auto kb = base.kept.find (1), kr = r.kept.find (1) ;
 	if (kb == base.kept.end () || kr == r.kept.end () || frames == 0) { v.probes ["store_prefix_not_recoverable"] ++ ; return ; }
 	// decode the snapshot taken at the instant of the fault
@@ -255,7 +267,19 @@ static void check_store_prefix (Verdict &v, const J &plan, const Result &r, cons
 	int64_t items = std::min<int64_t> ({ frames * ch, (int64_t) kr->second.size (), (int64_t) kb->second.size () }) ;
 	int64_t compared = 0 ;
 	for (int64_t k = 0 ; k < items ; k++)
-	{	if (k >= (int64_t) snap.size ()) break ;		// the snapshot's own header did not cover this frame yet: nothing to compare with
+	{	if (k >= (int64_t) snap.size ())
+		{	// the snapshot's own header did not cover this frame yet: only frames known to have been handed over can be judged
+			if (k >= handed_items) break ;
+			compared ++ ;
+			if (kr->second [k] != kb->second [k])
+			{	Finding fd ; char b [260] ;
+				snprintf (b, sizeof (b), "item %lld (of %lld frames that existed before the fault, %lld items of them in the store at that instant) decodes to 0x%llx after the faulted run; it was written as 0x%llx",
+					(long long) k, (long long) frames, (long long) handed_items, (unsigned long long) kr->second [k], (unsigned long long) kb->second [k]) ;
+				fd.sig = make_sig_raw ("C15", "store.prefix", f.name, plan.at ("cfg").gets ("route"), fj.gets ("kind"), "changed" + where) ; fd.detail = b ;
+				v.findings.push_back (fd) ; return ;
+			}
+			continue ;
+		}
 		compared ++ ;
 		if (kr->second [k] != kb->second [k] && kr->second [k] != snap [k] && !(k < (int64_t) alt.size () && kr->second [k] == alt [k]))
 		{	Finding fd ; char b [260] ;
@@ -610,6 +634,32 @@ static J gen_c03 (uint64_t seed, uint64_t idx)
 		uint64_t rr = g.rng.below (100) ; e ["region"] = rr < 70 ? "head" : rr < 80 ? "tail" : "any" ;
 		e ["keep"] = (long long) g.rng.range (4, 128) ;
 		ed.push (e) ;
+	}
+	// files as they occur in the wild around an otherwise valid image (decided from a separate stream, so that the other plans
+	// stay what they were): an ID3v2 tag in front of any container (the reader skips it and parses the rest at an offset), a WAV
+	// fmt chunk of the "24 bits in a 32-bit container" kind that sends the reader into its content-sniffing code
+	{	GenCtx gx (sub_seed (seed, "C03x", idx)) ;
+		uint64_t q = gx.rng.below (100) ;
+		bool wavfam = f.major == SF_FORMAT_WAV || f.major == SF_FORMAT_WAVEX || f.major == SF_FORMAT_RF64 ;
+		J extra = J::arr () ;
+		if (q < 8)
+		{	J e = J::obj () ; e ["kind"] = "id3_prefix" ; e ["ver"] = (int) gx.rng.range (2, 4) ;
+			e ["len"] = (long long) gx.rng.pick<int64_t> ({ 0, 1, 10, 117, 128, 2038, 4086, 4087, 16374, 70000 }) ;
+			e ["lie"] = (long long) (gx.rng.chance (0.25) ? gx.rng.pick<int64_t> ({ -1, 1, 1 << 20, 0x0fffffff }) : 0) ; e ["flags"] = (int) (gx.rng.chance (0.2) ? 0x10 : 0) ;
+			extra.push (e) ;
+		}
+		else if (q < 16 && wavfam && ch <= 8)
+		{	J e = J::obj () ; e ["kind"] = "wav_broken_fmt" ; e ["bits"] = (int) gx.rng.pick<int> ({ 24, 24, 24, 32, 16 }) ; e ["mult"] = (int) gx.rng.pick<int> ({ 4, 4, 4, 3, 8 }) ; extra.push (e) ; }
+		else if (q < 24 && wavfam)
+		{	// a LIST chunk of a kind this writer never produces (exif, adtl, INFO with unusual ids), before the audio or after it
+			J e = J::obj () ; e ["kind"] = "inject" ; e ["id"] = 3 ; e ["len"] = (long long) gx.rng.below (300) ; e ["fill"] = (int) gx.rng.below (2) ;
+			e ["chunk"] = (long long) gx.rng.below (64) ; e ["at_end"] = gx.rng.chance (0.3) ? 1 : 0 ; extra.push (e) ;
+		}
+		if (extra.size ())
+		{	// two thirds of them keep the image otherwise intact
+			if (gx.rng.chance (0.67)) ed = extra ;
+			else { for (size_t k = 0 ; k < ed.size () ; k++) extra.push (ed [k]) ; ed = extra ; }
+		}
 	}
 	c ["edits"] = ed ; if (needs_path_route (f) && g.rng.chance (0.6)) c ["rsrc"] = 1 ; ops.push (c) ;
 	// reader
